@@ -166,6 +166,15 @@ SubspaceT = TypeVar("SubspaceT", bound=Polytope)
 
 
 class PolytopeCollection(PolytopeTensor, TensorCollection[SubspaceT], ABC):
+    @classmethod
+    def from_tensor(cls, tensor: Tensor, **kwargs: Unpack[NDArrayParameters]) -> PolytopeTensor:
+        # a single polytope also has free indices (its vertices), only additional ones make a collection
+        kwargs.setdefault("copy", False)
+        result = cls(tensor, **kwargs)
+        if result.free_indices <= max(result.pdim - 1, 1):
+            return cls._element_class(tensor, **kwargs)  # type: ignore[return-value]
+        return result
+
     def _validate_tensor(self) -> None:
         super()._validate_tensor()
         if self.free_indices <= max(self.pdim - 1, 1):
